@@ -287,6 +287,34 @@ def _run_rot(case, ck):
                     "rotated field by %.2e (%s options)" %
                     (sub, ang, e, opt))
         fps.append(fp_values(base))
+    # far-field amplitude matrices (scattering-plane basis): the matrix of
+    # the rotated cluster in the direction (theta, phi + psi) is the matrix
+    # of the original cluster in (theta, phi) -- also exactly forward and
+    # exactly backward
+    import holopy as hp
+    from holopy.scattering import calc_scat_matrix
+    tt, pp = [v.ravel() for v in np.meshgrid([0.0, math.pi, 0.7, 2.2],
+                                             [0.3, 2.0], indexing="ij")]
+    S0 = calc_scat_matrix(hp.detector_points(theta=tt, phi=pp),
+                          _spheres(sub), H.NMED, H.WL,
+                          theory=Multisphere(**TIGHT)).values
+    ck.trans += 1
+    for ang in ROTS[:3]:
+        ps = math.radians(ang)
+        c, s_ = math.cos(ps), math.sin(ps)
+        R = np.array([[c, -s_, 0], [s_, c, 0], [0, 0, 1.0]])
+        pivot = np.array([0.4, -0.3, 0.0])
+        S1 = calc_scat_matrix(hp.detector_points(theta=tt, phi=pp + ps),
+                              _spheres(sub, R=R, pivot=pivot), H.NMED, H.WL,
+                              theory=Multisphere(**TIGHT)).values
+        ck.trans += 1
+        err = np.abs(S1 - S0).max(axis=(1, 2)) / np.abs(S0).max()
+        e = float(err.max())
+        ck.metric("rotation-scatmat", e)
+        ck.true("rotation-covariant", e <= 1e-6, "cluster %r rotated by %g "
+                "deg: amplitude matrix in the direction theta=%r differs "
+                "from the original one by %.2e" %
+                (sub, ang, float(tt[int(err.argmax())]), e))
     return digest(*fps)
 
 
@@ -318,6 +346,11 @@ RULE_CASES = [
     ("two@30.001", _two(30.001), "Mie"),
     ("two@100", _two(100.0), "Mie"),
     ("two@31-unequal-radii", ("unequal", 31.0), "Mie"),
+    # separations that are oblique to the coordinate axes: the rule speaks
+    # of the distance, not of the largest coordinate difference
+    ("two-oblique@34.6", ("oblique", (20.0, 20.0, 20.0)), "Mie"),
+    ("two-oblique@29.4", ("oblique", (17.0, 17.0, 17.0)), "Multisphere"),
+    ("two-oblique-xy@31.1", ("oblique", (22.0, 22.0, 0.0)), "Mie"),
     ("two@29-unequal-radii", ("unequal", 29.0), "Multisphere"),
     ("three-farthest-pair-beyond", _two(20.0, third=20.0), "Mie"),
     ("three-all-within", _two(14.0, third=14.0), "Multisphere"),
@@ -362,6 +395,11 @@ def _build(spec):
                 mem.append(Sphere(n=n, r=r / 2,
                                   center=(-third * r, 0.0, 50.0)))
             return Spheres(mem)
+        if kind == "oblique":
+            d = spec[1]
+            return Spheres([Sphere(n=1.5, r=1.0, center=(0.0, 0.0, 50.0)),
+                            Sphere(n=1.5, r=1.0,
+                                   center=(d[0], d[1], 50.0 + d[2]))])
         if kind == "unequal":
             sep = spec[1]
             # 30-radius rule uses the LARGEST radius (here 1.0)
